@@ -8,12 +8,14 @@ CONSTANTS MaxX,        \* exchanges per connection history
           WithReqClose, \* include exchanges whose REQUEST carried Connection: close
           CoreOnly     \* only the five core shapes: no body / body, kept; body + close; until-close; over the limit
 
-Shapes == {[headEnd |-> 2, end |-> 2 + b, closeAfter |-> ca, reqClose |-> rc, untilClose |-> uc, big |-> bg] :
-              b \in {0, 3}, ca \in BOOLEAN, rc \in BOOLEAN, uc \in BOOLEAN, bg \in BOOLEAN}
+Shapes == {[headEnd |-> 2, end |-> 2 + b, closeAfter |-> ca, reqClose |-> rc, untilClose |-> uc, big |-> bg, early |-> ea] :
+              b \in {0, 3}, ca \in BOOLEAN, rc \in BOOLEAN, uc \in BOOLEAN, bg \in BOOLEAN, ea \in BOOLEAN}
 \* a read-until-close body ends the connection; a request that carried close makes the peer close; only bodies
 \* can be too large
 Sane == {s \in Shapes : (s.untilClose => s.closeAfter /\ s.end > s.headEnd) /\ (s.reqClose => s.closeAfter) /\ (s.big => s.end > s.headEnd)
                      /\ (s.reqClose => WithReqClose)
+                     \* an early answer (the peer replies and closes without reading the request) has a body here
+                     /\ (s.early => s.closeAfter /\ ~s.reqClose /\ ~s.untilClose /\ s.end > s.headEnd)
                      /\ (CoreOnly => (s.end = s.headEnd => ~s.closeAfter) /\ (s.big => ~s.closeAfter))}
 
 RECURSIVE SeqsUpTo(_, _)
